@@ -4,9 +4,18 @@ from verifkit import read_lines
 
 REQUIRED = []  # filled below (kept as a module-level list so deleting a theorem is detected)
 
-REQUIRED += [
-    "DaeVerif.C16.Props.ignorable_never_counts",
-]
+REQUIRED += ["DaeVerif.C16.Props." + n for n in [
+    "dead_only_after_threshold", "threshold_reached_kills", "below_threshold_stays",
+    "forced_report_kills_immediately", "escalation_takes_all_types_down", "escalation_only_after_three_deaths",
+    "success_revives_and_clears", "data_udp_traffic_revives", "traffic_success_clears_traffic_count",
+    "ignorable_never_counts", "canceled_probe_never_counts",
+    "suppressed_failures_dont_count", "suppression_window",
+    "callbacks_on_edges_only", "callbacks_on_edges_only_history",
+    "groups_see_state",
+    "group_callbacks_are_edges", "random_policy_never_writes", "kernel_bit_partial", "kernel_bit_full_fails",
+    "kernel_key_injective", "kernel_key_slots",
+    "reload_snapshot_drops_counters", "reload_hands_over_state", "reload_floor_leaves_selectable",
+]]
 
 PKG = "component/outbound/dialer"
 
@@ -62,11 +71,41 @@ def run(ctx):
         if op == "crash" or im.startswith("crash:"):
             ctx.report(f"real code panicked: {im[:300]}", {"op": op, "impl": im})
 
+    # ---- kernel side: real outboundAliveChangeCallback + real BPF array map (package control)
+    n_k = 0
+    kbin = ctx.go_test_build("control", ["control/c16_test.go"], "c16k")
+    if not kbin:
+        return 2
+    rc, out = ctx.run_harness(kbin, "TestVerifC16Kernel")
+    kops, kimpl, kmodel = (os.path.join(ctx.out, "c16k." + e) for e in ("ops", "impl", "model"))
+    if rc != 0 or not os.path.exists(kops):
+        ctx.say("HARNESS-FAILED (kernel side)", out[-3000:])
+        return 2
+    kop_lines = read_lines(kops)
+    if kop_lines and kop_lines[0] == "nobpf":
+        ctx.assumptions.append("bpf(2) unavailable in this sandbox: the kernel-map half of the tie was SKIPPED")
+        ctx.cov["kernel_side"] = "skipped: bpf unavailable"
+    else:
+        if not ctx.driver("c16drv", kops, kmodel):
+            ctx.proof_failures.append("model driver c16drv failed to run (kernel stream)")
+
+        def konly(line):
+            m = re.search(r"K\[[^\]]*\]", line)
+            return m.group(0) if m else line
+        kmism = ctx.diff_streams(kops, kimpl, kmodel, "c16k", canon=konly)
+        for ln, op, im, mo in kmism[:5]:
+            ctx.report(f"kernel connectivity map differs from the proved model at line {ln} op `{op[:60]}`: "
+                       f"real map {konly(im)} model {konly(mo)}",
+                       {"stream": "c16k", "line": ln, "op": op, "impl": im, "model": mo,
+                        "replay": "VERIF_SEED=%d ./check C16 %s" % (ctx.seed, ctx.tier)})
+        n_k = len(kop_lines)
+        ctx.cov["kernel_side"] = json.load(open(os.path.join(ctx.out, "c16k.stats.json")))["counters"]
+
     stats = json.load(open(os.path.join(ctx.out, "c16.stats.json")))
     c = stats["counters"]
     ctx.samples = [l for l in op_lines if l.startswith(("probe", "tfail", "floor", "inherit", "group"))][:8]
     ctx.cov["input_distribution"] = c
-    ctx.assumptions = [
+    ctx.assumptions += [
         "histories are generated (seeded): 1-4 nodes per generation sharing 0-2 proxy addresses, 0-4 groups per generation "
         "(policies min_last/min_avg/min_moving/random/fixed), up to ~110 events per scenario, reload generations included",
         "AddLatency offsets and tolerances are non-negative and far below one hour (hypothesis LatOK of the kernel-bit theorems)",
@@ -76,4 +115,4 @@ def run(ctx):
              "whose complete resulting state (alive flags, both counters, transition callbacks, group callbacks, set "
              "membership+best node, address table, suppression) is compared with the model; distinct_nontrivial = distinct "
              "(event kind, network type, attempt script, suppressed?, alive before/after, counter bucket) tuples seen",
-        evaluations=len(op_lines), distinct=c.get("distinct", 0))
+        evaluations=len(op_lines) + n_k, distinct=c.get("distinct", 0))
